@@ -83,7 +83,7 @@ Definition lookup (ref : list rrow) (k : key) : option rrow :=
 Definition match_ref (ref : list rrow) (samp : list srow) : fix_error + list brow :=
   if has_dup (map skey samp) then inl DupSample
   else if has_dup (map rkey3 ref) then inl DupReference
-  else match all_some (map (fun s => lookup ref (skey s)) samp) with
+  else match Prelude.all_some (map (fun s => lookup ref (skey s)) samp) with
        | Some l => inr (combine samp l)
        | None => inl MissingBins
        end.
